@@ -71,11 +71,12 @@ def sccCase : P String := do
     else "-"
   let wf := s!"{bit g.wfb} std {stdFlag}"
   let check := g.wfb && n ≤ chkLimit
-  match allScc g with
+  -- the model of the code as it is: frame-list searches (`allSccIter`, proved equal to `allScc`)
+  match allSccIter g with
   | .error e => pure s!"wf {wf} err {errOut e}"
   | .ok cs =>
     -- `largest_strongly_connected_component` recomputes the components; the model does the same
-    match largestScc g with
+    match largestSccIter g with
     | .error e => pure s!"wf {wf} err {errOut e}"
     | .ok big =>
       let cm := if check then bit (isSccPartition g cs) else "-"
@@ -84,7 +85,7 @@ def sccCase : P String := do
 
 def deepCase : P String := do
   let (g, _) ← graphP
-  match allScc g, largestScc g with
+  match allSccIter g, largestSccIter g with
   | .ok cs, .ok big => pure s!"ok {compsOut (canon cs)} L {listOut (sortNat big)}"
   | _, _ => pure "err"
 
@@ -94,9 +95,11 @@ def dfsCase : P String := do
   let start ← nat
   let vis ← listOf nat
   let st ← listOf nat
-  -- the stack `Vec` has its last push at the end; the model's list has it at the head.  One more unit of
-  -- fuel than `allScc` hands out: the start vertex may be an id that no record mentions.
-  let r := if rev then rdfs g (g.fuel + 1) start (vis, st.reverse) else dfs g (g.fuel + 1) start (vis, st.reverse)
+  -- the stack `Vec` has its last push at the end; the model's list has it at the head.  The start vertex may
+  -- be an id that no record mentions: its own frame is added to the budget of turns.
+  let r :=
+    if rev then dfsIter g.inEdges g.srcOf (g.turns + (g.inEdges start).length + 1) start (vis, st.reverse)
+    else dfsIter g.outEdges g.dstOf (g.turns + (g.outEdges start).length + 1) start (vis, st.reverse)
   match r with
   | .error e => pure s!"err {errOut e}"
   | .ok (vis', st') => pure s!"ok {listOut (sortNat vis'.eraseDups)} {listOut st'.reverse}"
@@ -177,7 +180,7 @@ def fileCase : P String := do
     let impl ← optOf (listOf (listOf nat))
     let g := Scc.Graph.ofNet net
     let digest := s!"{net.nEdges} {net.nVertices} {slotsOut net.adj} {slotsOut net.rev}"
-    match allScc g, largestScc g with
+    match allSccIter g, largestSccIter g with
     | .ok cs, .ok big =>
       -- the checker's verdict on the implementation's list (the diff already compares it with the model's)
       let chk := if g.wfb && g.n ≤ chkLimit then
